@@ -213,3 +213,122 @@ Section Fixed.
     apply place_phi_loop_fixed_eq.
   Qed.
 End Fixed.
+
+(* ------------------------------------------------------------------ burg check_tree_defined *)
+Lemma check_defined_ok : forall names symbols,
+  check_tree_defined names symbols = Ok tt <-> (forall n, In n names -> mem n symbols = true).
+Proof.
+  intro names. induction names as [|a r IH]; intros symbols; simpl.
+  - split; [intros _ n Hn; destruct Hn|auto].
+  - destruct (mem a symbols) eqn:E.
+    + rewrite IH. split; intros H n; [intros [<-|Hn]; auto|auto].
+    + split; [discriminate|]. intro H. rewrite H in E by auto. discriminate.
+Qed.
+
+(* whether the check passes does not depend on the enumeration order of the name set *)
+Theorem burg_check_order_independent : forall names names' symbols, Permutation names names' ->
+  (check_tree_defined names symbols = Ok tt <-> check_tree_defined names' symbols = Ok tt).
+Proof.
+  intros names names' symbols Hp. rewrite !check_defined_ok. split; intros H n Hn; apply H.
+  - eapply Permutation_in; [apply Permutation_sym|]; eauto.
+  - eapply Permutation_in; eauto.
+Qed.
+
+Theorem burg_check_reports_undefined : forall names symbols n,
+  check_tree_defined names symbols = Diag n -> In n names /\ mem n symbols = false.
+Proof.
+  induction names as [|a names IH]; simpl; intros symbols n H; [discriminate|].
+  destruct (mem a symbols) eqn:E.
+  - destruct (IH _ _ H); auto.
+  - inversion H; subst; auto.
+Qed.
+
+(* only the name quoted in the BurgError of a malformed rule set follows the enumeration *)
+Theorem burg_check_message_order_relevant : exists names names' symbols,
+  Permutation names names' /\ check_tree_defined names symbols <> check_tree_defined names' symbols.
+Proof. exists [1; 2], [2; 1], []. split; [apply perm_swap|vm_compute; discriminate]. Qed.
+
+(* ------------------------------------------------------------------ relooper follows_loop *)
+Lemma set_add_nodup : forall x s, NoDup s -> NoDup (set_add x s).
+Proof.
+  intros x s Hn. unfold set_add. destruct (mem x s) eqn:E; auto.
+  constructor; auto. now apply mem_false.
+Qed.
+
+Section Follows.
+  Variable ln : list Z.
+  Variable sdom : Z -> bool.
+  Let outside (x : Z) : Prop := mem x ln = false /\ sdom x = false.
+
+  Lemma inner_fold_In : forall ss acc x,
+    In x (fold_left (follows_inner ln sdom) ss acc) <-> In x acc \/ (In x ss /\ outside x).
+  Proof.
+    induction ss as [|s ss IH]; simpl; intros acc x; [tauto|].
+    rewrite IH. unfold follows_inner, outside.
+    destruct (mem s ln) eqn:E1; [|destruct (sdom s) eqn:E2].
+    - split; [tauto|]. intros [H|[[<-|H] [H1 H2]]]; auto; congruence.
+    - split; [tauto|]. intros [H|[[<-|H] [H1 H2]]]; auto; congruence.
+    - rewrite set_add_In. split.
+      + intros [[->|H]|H]; auto. tauto.
+      + intros [H|[[<-|H] Ho]]; auto.
+  Qed.
+
+  Lemma inner_fold_nodup : forall ss acc, NoDup acc -> NoDup (fold_left (follows_inner ln sdom) ss acc).
+  Proof.
+    induction ss; simpl; intros acc Hn; auto. apply IHss. unfold follows_inner.
+    destruct (mem a ln); auto. destruct (sdom a); auto using set_add_nodup.
+  Qed.
+
+  Variable succ : Z -> list Z.
+  Let outer := fun acc node => fold_left (follows_inner ln sdom) (succ node) acc.
+
+  Lemma outer_fold_In : forall nodes acc x,
+    In x (fold_left outer nodes acc) <->
+    In x acc \/ exists n, In n nodes /\ In x (succ n) /\ outside x.
+  Proof.
+    induction nodes as [|n nodes IH]; simpl; intros acc x.
+    - split; auto. intros [H|(n & [] & _)]; auto.
+    - rewrite IH. unfold outer. rewrite inner_fold_In. split.
+      + intros [[H|[H Ho]]|(m & Hm & H)]; eauto 6.
+      + intros [H|(m & [<-|Hm] & H & Ho)]; eauto 6.
+  Qed.
+
+  Lemma outer_fold_nodup : forall nodes acc, NoDup acc -> NoDup (fold_left outer nodes acc).
+  Proof. induction nodes; simpl; intros; auto. apply IHnodes. unfold outer. now apply inner_fold_nodup. Qed.
+End Follows.
+
+Lemma reachable_outside_In : forall succ ln sdom x,
+  In x (reachable_outside succ ln sdom) <->
+  exists n, In n ln /\ In x (succ n) /\ mem x ln = false /\ sdom x = false.
+Proof. intros. unfold reachable_outside. rewrite outer_fold_In. simpl. tauto. Qed.
+
+Lemma mem_perm : forall x l l', Permutation l l' -> mem x l = mem x l'.
+Proof.
+  intros x l l' Hp. destruct (mem x l') eqn:E.
+  - apply mem_In. eapply Permutation_in; [apply Permutation_sym; eauto|]. now apply mem_In.
+  - apply mem_false. intro H. apply mem_false in E. apply E. eapply Permutation_in; eauto.
+Qed.
+
+(* neither the order of loop.rest (built from the set _reach[header]) nor the enumeration of the successor
+   sets reaches the result *)
+Theorem follows_loop_order_independent : forall succ succ' ln ln' sdom,
+  Permutation ln ln' -> (forall n, Permutation (succ n) (succ' n)) ->
+  follows_loop succ ln sdom = follows_loop succ' ln' sdom.
+Proof.
+  intros succ succ' ln ln' sdom Hp Hs. unfold follows_loop.
+  assert (Hperm : Permutation (reachable_outside succ ln sdom) (reachable_outside succ' ln' sdom)).
+  { apply NoDup_Permutation.
+    - unfold reachable_outside. apply outer_fold_nodup. constructor.
+    - unfold reachable_outside. apply outer_fold_nodup. constructor.
+    - intro x. rewrite !reachable_outside_In. rewrite (mem_perm x ln ln' Hp).
+      split; intros (n & Hn & Hx & Ho); exists n; split.
+      + eapply Permutation_in; eauto.
+      + split; auto. eapply Permutation_in; eauto.
+      + eapply Permutation_in; [apply Permutation_sym|]; eauto.
+      + split; auto. eapply Permutation_in; [apply Permutation_sym; apply Hs|]; auto. }
+  destruct (reachable_outside succ ln sdom) as [|a [|b r]].
+  - apply Permutation_nil in Hperm. now rewrite Hperm.
+  - apply Permutation_length_1_inv in Hperm. now rewrite Hperm.
+  - pose proof (Permutation_length Hperm) as Hl.
+    destruct (reachable_outside succ' ln' sdom) as [|a' [|b' r']]; simpl in Hl; try discriminate; auto.
+Qed.
